@@ -62,6 +62,16 @@ func GenMsg(t *rapid.T, depth int, maxRecs int, mark uint64, label string) []wir
 					r.B = wirex.AppendVarint(r.B, genU64(t)^mark)
 				}
 			default:
+				if rapid.IntRange(0, 11).Draw(t, "bigbytes") == 0 {
+					// now and then a payload around the sizes code tends to switch behaviour at, which also makes the
+					// whole message long
+					sizes := []int{127, 128, 255, 256, 1024, 4095, 4096, 4097, 5000, 16384, 70000}
+					r.B = make([]byte, sizes[rapid.IntRange(0, len(sizes)-1).Draw(t, "nbig")])
+					for j := range r.B {
+						r.B[j] = byte('A'+j%23) ^ byte(mark)
+					}
+					break
+				}
 				k := rapid.IntRange(0, 6).Draw(t, "nbytes")
 				r.B = make([]byte, k)
 				for j := range r.B {
